@@ -331,6 +331,8 @@ class Monitor:
             self.runs_since[i['seq']] = self.runs_since.get(i['seq'], 0) + 1
         if q.rc != 0:
             self.viol('run-returns-error', 'KSI_AsyncService_run rc=%#x' % q.rc)
+        if q.get('handle') == 'stale' or q.get('waitingstale'):
+            self.viol('run-leaves-out-parameter-unset', 'KSI_AsyncService_run returned KSI_OK without setting its %s out-parameter (the caller would take the previous value for a returned request): %s' % ('handle' if q.get('handle') == 'stale' else 'waiting-count', dict(q)))
         if len(self.s.tcp_order) > nconn:
             if had_refuse:
                 self.cause_all('connection refused')
